@@ -159,6 +159,21 @@ def step (toks : List String) : String :=
       let pp := (pts7 rest).toArray
       if pp.size ≠ n then "bad-count" else runUpdate b fuel pp
     | _, _, _, _, _ => "bad-op"
+  | "acc" :: mode :: rs :: nx :: ny :: nz :: fuel :: gG :: soft :: th :: n :: rest =>
+    match nx.toNat?, ny.toNat?, nz.toNat?, fuel.toNat?, n.toNat? with
+    | some nx, some ny, some nz, some fuel, some n =>
+      let b : Box := ⟨fl rs, nx, ny, nz, mode == "clamp"⟩
+      let ps := (pts4 rest).toArray
+      if ps.size ≠ n then "bad-count" else
+      match buildForest b ps fuel with
+      | .error e => e
+      | .ok roots =>
+        let psf : Nat → Pt Float := fun i => ps.getD i default
+        let forest := (roots.map (updGrav psf)).toList
+        let s := fl soft
+        let accs := (List.range n).map fun i => accForest Float.sqrt (fl gG) (s * s) (fl th) (psf i) i forest
+        "ok " ++ hxs (accs.flatMap fun a => [a.ax, a.ay, a.az])
+    | _, _, _, _, _ => "bad-op"
   | "walk" :: th :: gx :: gy :: gz :: pt :: rs :: nx :: ny :: nz :: fuel :: n :: rest =>
     match pt.toNat?, nx.toNat?, ny.toNat?, nz.toNat?, fuel.toNat?, n.toNat? with
     | some pt, some nx, some ny, some nz, some fuel, some n =>
